@@ -370,3 +370,118 @@ Theorem c15_strike_routes_wf :
 Proof. exact StrikeRel.c15_strike_routes_wf. Qed.
 Print Assumptions c15_strike_routes_wf.
 
+
+(* ---------- no_link_wrapping and min_wrap_width, whole renderer (Proofs/LinkWrapRel.v): the body never reads o_wrap_links; the footnote list is one line per entry without wrapping and, with it, each entry cut into consecutive pieces that concatenate to it (each at most the width, or one character wider than the width: the recorded C02 finding); min_wrap_width does not apply to flat trees, and cannot change a successful table-free render without overflow ---------- *)
+From H2T Require Import Base Tagged Wrap Sub Css Dom Render Api CssParse Proofs.CssTotal Proofs.WrapInv Proofs.RenderWidth Proofs.Conserve Proofs.Footnotes Proofs.AnnBalance Proofs.RenderConserve Proofs.OptionRel Proofs.Compose Proofs.RenderTotal Proofs.FragStream Proofs.SimRel Proofs.Prune Proofs.LinkWrapRel.
+Theorem nlw_render_node :
+  forall (d : deco) (mw : N) (n : rnode) (s : subr) (rest1 rest2 : list subr) (lk : list text),
+       res_rel
+         (fun a b : rstate =>
+          links a = links b /\ (exists s' : subr, stack a = s' :: rest1 /\ stack b = rw s' :: rest2))
+         (render_node d mw n {| stack := s :: rest1; links := lk |})
+         (render_node d mw n {| stack := rw s :: rest2; links := lk |}).
+Proof. exact LinkWrapRel.nlw_render_node. Qed.
+Print Assumptions nlw_render_node.
+
+Theorem fmt_links_wrap_rel :
+  forall (ls : list tline) (s : subr),
+       ptxt s = [] ->
+       exists new1 new2 : list rline,
+         slines (fmt_links s ls) = slines s ++ new1 /\
+         slines (fmt_links (rw s) ls) = slines s ++ new2 /\
+         wrapping (fmt_links s ls) = wrapping s /\
+         wrapping (fmt_links (rw s) ls) = wrapping s /\
+         entry_groups (map entry_text ls) [] new1 /\
+         map rline_string new2 = map entry_text ls /\
+         Forall pairs_ok new1 /\
+         Forall pairs_ok new2 /\
+         (o_wrap_links (sopts s) = true -> Forall (width_ok (swidth_ s)) new1) /\
+         (length new2 <= length new1)%nat /\ flat_map rline_string new1 = flat_map rline_string new2.
+Proof. exact LinkWrapRel.fmt_links_wrap_rel. Qed.
+Print Assumptions fmt_links_wrap_rel.
+
+Theorem nlw_render_tree :
+  forall (d : deco) (mw : N) (o : ropts) (width : N) (tree : rnode),
+       res_rel (nlw_rel d mw o width tree) (render_tree d mw o width tree)
+         (render_tree d mw (nowl o) width tree).
+Proof. exact LinkWrapRel.nlw_render_tree. Qed.
+Print Assumptions nlw_render_tree.
+
+Theorem nlw_lines :
+  forall (d : deco) (mw : N) (o : ropts) (width : N) (tree : rnode),
+       res_rel (fun ls1 ls2 : list rline => lines_rel ls1 ls2 /\ (no_list d mw o width tree -> ls1 = ls2))
+         (do s <- render_tree d mw o width tree; sub_into_lines s)
+         (do s <- render_tree d mw (nowl o) width tree; sub_into_lines s).
+Proof. exact LinkWrapRel.nlw_lines. Qed.
+Print Assumptions nlw_lines.
+
+Theorem nlw_string :
+  forall (d : deco) (mw : N) (o : ropts) (width : N) (tree : rnode),
+       res_rel (fun t1 t2 : text => string_rel t1 t2 /\ (no_list d mw o width tree -> t1 = t2))
+         (do s <- render_tree d mw o width tree; sub_into_string s)
+         (do s <- render_tree d mw (nowl o) width tree; sub_into_string s).
+Proof. exact LinkWrapRel.nlw_string. Qed.
+Print Assumptions nlw_string.
+
+Theorem nlw_lines_from_read :
+  forall (inl : list (text * text) -> res (list styledecl)) (dr : list node -> res (list ruleset))
+         (c : config) (doc : list node) (w : N),
+       res_rel (fun t1 t2 : list tline => tlines_rel t1 t2 /\ (doc_no_list inl dr c doc -> t1 = t2))
+         (lines_from_read inl dr c doc w) (lines_from_read inl dr (set_no_link_wrap c) doc w).
+Proof. exact LinkWrapRel.nlw_lines_from_read. Qed.
+Print Assumptions nlw_lines_from_read.
+
+Theorem nlw_string_from_read :
+  forall (inl : list (text * text) -> res (list styledecl)) (dr : list node -> res (list ruleset))
+         (c : config) (doc : list node) (w : N),
+       res_rel (fun t1 t2 : text => string_rel t1 t2 /\ (doc_no_list inl dr c doc -> t1 = t2))
+         (string_from_read inl dr c doc w) (string_from_read inl dr (set_no_link_wrap c) doc w).
+Proof. exact LinkWrapRel.nlw_string_from_read. Qed.
+Print Assumptions nlw_string_from_read.
+
+Theorem nlw_routes_unchanged :
+  forall (inl : list (text * text) -> res (list styledecl)) (dr : list node -> res (list ruleset))
+         (c : config) (doc : list node) (w : N),
+       doc_no_list inl dr c doc ->
+       lines_from_read inl dr (set_no_link_wrap c) doc w = lines_from_read inl dr c doc w /\
+       string_from_read inl dr (set_no_link_wrap c) doc w = string_from_read inl dr c doc w.
+Proof. exact LinkWrapRel.nlw_routes_unchanged. Qed.
+Print Assumptions nlw_routes_unchanged.
+
+Theorem minwrap_flat :
+  forall (d : deco) (mw1 mw2 : N) (o : ropts) (width : N) (tree : rnode),
+       flat tree = true -> render_tree d mw1 o width tree = render_tree d mw2 o width tree.
+Proof. exact LinkWrapRel.minwrap_flat. Qed.
+Print Assumptions minwrap_flat.
+
+Theorem minwrap_both_ok :
+  forall (d : deco) (mw1 mw2 : N) (o : ropts) (width : N) (tree : rnode) (s1 s2 : subr),
+       no_table tree = true ->
+       o_allow_overflow o = false ->
+       render_tree d mw1 o width tree = Ok s1 -> render_tree d mw2 o width tree = Ok s2 -> s1 = s2.
+Proof. exact LinkWrapRel.minwrap_both_ok. Qed.
+Print Assumptions minwrap_both_ok.
+
+Theorem minwrap_routes_flat :
+  forall (inl : list (text * text) -> res (list styledecl)) (dr : list node -> res (list ruleset))
+         (c : config) (doc : list node) (w m : N),
+       (forall tree : rnode, to_render_tree inl dr c doc = Ok tree -> flat tree = true) ->
+       lines_from_read inl dr (set_min_wrap c m) doc w = lines_from_read inl dr c doc w /\
+       string_from_read inl dr (set_min_wrap c m) doc w = string_from_read inl dr c doc w.
+Proof. exact LinkWrapRel.minwrap_routes_flat. Qed.
+Print Assumptions minwrap_routes_flat.
+
+Theorem minwrap_routes_both_ok :
+  forall (inl : list (text * text) -> res (list styledecl)) (dr : list node -> res (list ruleset))
+         (c : config) (doc : list node) (w m : N),
+       (forall tree : rnode, to_render_tree inl dr c doc = Ok tree -> no_table tree = true) ->
+       c_overflow c = false ->
+       (forall r1 r2 : list tline,
+        lines_from_read inl dr (set_min_wrap c m) doc w = Ok r1 ->
+        lines_from_read inl dr c doc w = Ok r2 -> r1 = r2) /\
+       (forall r1 r2 : text,
+        string_from_read inl dr (set_min_wrap c m) doc w = Ok r1 ->
+        string_from_read inl dr c doc w = Ok r2 -> r1 = r2).
+Proof. exact LinkWrapRel.minwrap_routes_both_ok. Qed.
+Print Assumptions minwrap_routes_both_ok.
+
